@@ -335,34 +335,38 @@ class Verify(Spec):
 
 def anyof_invariant(st, me):
     """
-    Object invariant of AnyOf (established by AnyOf.__init__, frozen dataclass) + bases-soundness of the alternatives.
+    Object invariant of AnyOf - literally the postcondition discharged for AnyOf.__init__ (class AnyOfInit below; the object is a frozen
+    dataclass, so the invariant holds for its whole life) - plus bases-soundness of the alternatives (callee contracts: proved for
+    EqAttrConstraint, BaseAttr, ParamAttrConstraint in the GetBases units, assumed for the others).
     BASE(c, t): t is among c.get_bases();  NOBASES(c): c.get_bases() is None.
     """
     n = st.seq_len("attr_constrs", me)
     alt = lambda q: st.seq_el("attr_constrs", me, q)
     tbl = st.sel("_based_constrs", me)
     ab = st.sel("_abstr_constr", me)
-    j, i, t, x = z3.Ints("ai!j ai!i ai!t ai!x")
+    j, i, t, x, c = z3.Ints("ai!j ai!i ai!t ai!x ai!c")
     D, V = z3.Const("ai!D", SET), z3.Const("ai!V", MAP)
     return [
         A("table-object", tbl > 0),
         A("inv: every base of an alternative maps to that alternative", forall([j, t], z3.Implies(z3.And(j >= 0, j < n, BASE(alt(j), t)), z3.And(st.dict_dom(tbl)[t], st.dict_vals(tbl)[t] == alt(j))))),
-        A("inv: every table entry is an alternative with that base", forall([t], z3.Implies(st.dict_dom(tbl)[t], z3.Exists([j], z3.And(j >= 0, j < n, alt(j) == st.dict_vals(tbl)[t], BASE(alt(j), t), alt(j) > 0))))),
-        A("inv: the abstract alternative is the one without bases", z3.And(z3.Implies(ab != 0, z3.Exists([j], z3.And(j >= 0, j < n, alt(j) == ab, NOBASES(ab)))),
-                                                                        forall([j], z3.Implies(z3.And(j >= 0, j < n, NOBASES(alt(j))), alt(j) == ab)))),
-        A("inv: alternatives have bases or are the abstract one", forall([j], z3.Implies(z3.And(j >= 0, j < n), z3.Or(NOBASES(alt(j)), z3.Exists([t], BASE(alt(j), t)))))),
-        A("inv: no table key is a subclass of the abstract class", forall([t, x], z3.Implies(z3.And(ab != 0, st.dict_dom(tbl)[t], TYPE(x) == t), z3.Not(ACC_ABS(ab, x))))),
+        A("inv: every table entry is an alternative with that base", forall([t], z3.Implies(st.dict_dom(tbl)[t], z3.Exists([j], z3.And(j >= 0, j < n, alt(j) == st.dict_vals(tbl)[t], BASE(alt(j), t)))))),
+        A("inv: the abstract alternative is the one without bases, a BaseAttr of a non-final class", z3.And(
+            z3.Implies(ab != 0, z3.Exists([j], z3.And(j >= 0, j < n, alt(j) == ab, NOBASES(ab), ISBASEATTR(ab), z3.Not(FINAL(st.sel("attr", ab)))))),
+            forall([j], z3.Implies(z3.And(j >= 0, j < n, NOBASES(alt(j))), alt(j) == ab)))),
+        A("inv: no table key is a subclass of the abstract alternative's class", forall([t], z3.Implies(z3.And(ab != 0, st.dict_dom(tbl)[t]), z3.Not(SUBCLS(t, st.sel("attr", ab)))))),
+        AX("isinstance(x, C) iff issubclass(type(x), C)", forall([x, c], ISINST(x, c) == SUBCLS(TYPE(x), c))),
         AX("bases-soundness: an alternative with bases accepts only attributes whose class is one of them",
            forall([j, x, D, V], z3.Implies(z3.And(j >= 0, j < n, z3.Not(NOBASES(alt(j))), ACC(alt(j), x, D, V)), BASE(alt(j), TYPE(x))))),
-        AX("bases-soundness: the abstract alternative is a BaseAttr: it accepts exactly the instances of its class",
-           forall([x, D, V], z3.Implies(ab != 0, ACC(ab, x, D, V) == ACC_ABS(ab, x)))),
+        AX("the abstract alternative is a BaseAttr: it accepts exactly the instances of its class (contract of BaseAttr.verify, proved above)",
+           forall([x, D, V], z3.Implies(ab != 0, ACC(ab, x, D, V) == ISINST(x, st.sel("attr", ab))))),
         AX("a constraint has bases or not", forall([x, t], z3.Implies(NOBASES(x), z3.Not(BASE(x, t))))),
     ]
 
 
+SUBCLS = z3.Function("issubclass", I, I, B)
+ISBASEATTR = z3.Function("is_a_BaseAttr_constraint", I, B)
 BASE = z3.Function("has_base", I, I, B)
 NOBASES = z3.Function("get_bases_is_None", I, B)
-ACC_ABS = z3.Function("isinstance_of_abstract_class", I, I, B)  # isinstance(x, ab.attr)
 
 
 class Infer(Spec):
@@ -451,6 +455,169 @@ class GetBases(Spec):
         return [C("every-accepted-attribute-has-one-of-the-returned-classes", z3.Implies(accepted, st.dict_dom(res.z)[TYPE(x)]))]
 
 
+
+# =============================================================================== AnyOf.__init__ establishes the invariant AnyOf.verify relies on
+BSET = z3.Function("get_bases_result_object", I, I)
+
+
+def enum_set(st, setref, tag):
+    """Iteration over a Python set / dict-key view: TRUSTED model - every member exactly once, in some order."""
+    dom = st.dict_dom(setref)
+    en = st.fresh(f"enum!{tag}", MAP)
+    pos = st.fresh(f"pos!{tag}", MAP)
+    n = st.fresh_int(f"n!{tag}")
+    j, x = z3.Ints("en!j en!x")
+    st.assume(n >= 0)
+    st.assume(forall([j], z3.Implies(z3.And(j >= 0, j < n), dom[en[j]]), patterns=[en[j]]))
+    st.assume(forall([x], z3.Implies(dom[x], z3.And(pos[x] >= 0, pos[x] < n, en[pos[x]] == x)), patterns=[dom[x]]))
+    return en, n
+
+
+class AnyOfInit(Spec):
+    """
+    AnyOf.__init__(attr_constrs): returns normally only with the object invariant that AnyOf.verify is proved under -
+      the dispatch table maps exactly the bases of the alternatives to their alternative (pairwise disjoint bases), at most one alternative has no
+      bases and it is a BaseAttr of a non-final class, and no table key is a subclass of that class - otherwise it raises PyRDLError.
+    """
+
+    prop, file, qualname = PROP, CO, "AnyOf.__init__"
+    modifies = ["dict#dom", "dict#val", "attr_constrs#len", "attr_constrs#el", "_based_constrs", "_abstr_constr"]
+
+    def __init__(self):
+        def b_get_bases(ex, st, args, kw):
+            c = args[0].z
+            out = []
+            for none, bs in ex.split(st, NOBASES(c)):
+                if none:
+                    out.append(Res("val", None, bs))
+                else:
+                    t = z3.Int("gb!t")
+                    bs.assume(z3.And(BSET(c) != 0, forall([t], bs.dict_dom(BSET(c))[t] == BASE(c, t)), z3.Not(bs.alloc()[BSET(c)]) if False else z3.BoolVal(True)))
+                    out.append(Res("val", VRef(BSET(c), "set", ("set", "ref")), bs))
+            return out
+
+        def b_setattr(ex, st, args, kw):
+            obj, name, val = args
+            ex.write_field(obj, name, val, st)
+            return [Res("val", None, st)]
+
+        b_setattr.modifies = ["attr_constrs#len", "attr_constrs#el", "_based_constrs", "_abstr_constr"]
+        self.calls = {".get_bases": Builtin(b_get_bases, "c.get_bases(): the set of bases BASE(c, .) or None (callee contract; soundness of each class's get_bases is proved separately)"),
+                      "is_runtime_final": Builtin(b_final), "object.__setattr__": Builtin(b_setattr, "object.__setattr__(self, name, value) on a frozen dataclass: plain field store"),
+                      "issubclass": Builtin(lambda ex, st, a, k: [Res("val", VBool(SUBCLS(a[0].z, a[1].z)), st)], "issubclass (uninterpreted)"),
+                      "set": Builtin(lambda ex, st, a, k: [Res("val", VOpaque("set-for-message"), st)], "")}
+
+    @property
+    def globals(self):
+        def isinst(ex, st, v, cls):
+            if isinstance(cls, VGlobal) and cls.text == "BaseAttr" and isinstance(v, VRef):
+                return lift_bool(ISBASEATTR(v.z))
+            return None
+
+        def it(ex, st, v):
+            if isinstance(v, VRef) and v.kinds and v.kinds[0] in ("set", "dict"):
+                en, n = enum_set(st, v.z, str(len(st.pc)))
+                return (lambda j, s: VRef(z3.Select(en, j), "type")), n
+            return None
+
+        g = dict(COMMON_GLOBALS)
+        g.update({"__isinstance__": isinst, "__iter__": it, "BaseAttr": VGlobal("BaseAttr"), "object": VGlobal("object"),
+                  "__local_types__": {"abstr_constr": lambda st: VRef(st.fresh_int("hv.abstr_constr"), "AttrConstraint")}})
+        return g
+
+    def setup(self, st, inst):
+        me = st.declare_input("self", z3.Int("self"))
+        return {"self": VRef(me, "AnyOf"), "attr_constrs": VSeq(z3.Array("alternatives", I, I), st.declare_input("n_alternatives", z3.Int("n_alternatives")), "ref", "AttrConstraint"),
+                "_me": me}
+
+    def pre(self, st, a):
+        alts = a["attr_constrs"]
+        j, c, t = z3.Ints("ai!j ai!c ai!t")
+        return [A("objects", z3.And(a["_me"] > 0, alts.n >= 0, forall([j], z3.Implies(z3.And(j >= 0, j < alts.n), alts.arr[j] > 0)))),
+                AX("a constraint has bases or not", forall([c, t], z3.Implies(NOBASES(c), z3.Not(BASE(c, t))))),
+                AX("get_bases results are set objects distinct from everything allocated here", forall([c], z3.Implies(z3.Not(NOBASES(c)), st.alloc()[BSET(c)])))]
+
+    def _table(self, st, env):
+        t = env["based_constrs"]
+        return t.z
+
+    def _facts(self, st, a, k, tbl, ab):
+        """Invariant after the first k alternatives."""
+        alts = a["attr_constrs"]
+        alt = lambda q: alts.arr[q]
+        j, i, t = z3.Ints("af!j af!i af!t")
+        return [
+            A("every base of a processed alternative maps to it", forall([j, t], z3.Implies(z3.And(j >= 0, j < k, BASE(alt(j), t)), z3.And(st.dict_dom(tbl)[t], st.dict_vals(tbl)[t] == alt(j))))),
+            A("every table entry is a processed alternative with that base", forall([t], z3.Implies(st.dict_dom(tbl)[t], z3.Exists([j], z3.And(j >= 0, j < k, alt(j) == st.dict_vals(tbl)[t], BASE(alt(j), t)))))),
+            A("the abstract alternative is the processed one without bases", z3.And(
+                z3.Implies(ab != 0, z3.Exists([j], z3.And(j >= 0, j < k, alt(j) == ab, NOBASES(ab), ISBASEATTR(ab), z3.Not(FINAL(st.sel("attr", ab)))))),
+                forall([j], z3.Implies(z3.And(j >= 0, j < k, NOBASES(alt(j))), alt(j) == ab)))),
+        ]
+
+    def inv(self, n, entry, st, a, lv):
+        env = lv["env"]
+        tbl = env["based_constrs"].z
+        ab = z_int(env["abstr_constr"])
+        k = lv["k"]
+        t = z3.Int("ai!t")
+        base = [A("table-object", z3.And(tbl != 0, tbl == entry.env["based_constrs"].z))]
+        if n == 0:  # for i, c in enumerate(attr_constrs)
+            return base + self._facts(st, a, k, tbl, ab)
+        if n == 1:  # for base in b: based_constrs[base] = c   (bases of the current alternative c, enumerated)
+            c = env["c"].z
+            en = lv["elem"]
+            j = z3.Int("ai!j")
+            kk = env["i"] if "i" in env else None
+            return base + [A("outer-facts-for-earlier-alternatives-with-c's-bases-being-added", z3.BoolVal(True))] + self._inner(st, a, env, lv, tbl, ab, c)
+        # for base in based_constrs.keys(): overlap check against the abstract alternative
+        alts = a["attr_constrs"]
+        j = z3.Int("ai!j")
+        return base + self._facts(st, a, alts.n, tbl, ab) + [
+            A("keys-checked-so-far-are-not-subclasses-of-the-abstract-class", forall([j], z3.Implies(z3.And(j >= 0, j < k), z3.Not(SUBCLS(z_int(lv["elem"](j, st)), st.sel("attr", ab)))))),
+            A("table-unchanged", z3.And(st.dict_dom(tbl) == entry.dict_dom(tbl), st.dict_vals(tbl) == entry.dict_vals(tbl)))]
+
+    def _inner(self, st, a, env, lv, tbl, ab, c):
+        """During `for base in b`: the facts for alternatives before c, plus: the enumerated prefix of c's bases is in the table mapped to c."""
+        alts = a["attr_constrs"]
+        alt = lambda q: alts.arr[q]
+        i = z_int(env["i"])
+        k = lv["k"]
+        j, t, q = z3.Ints("an!j an!t an!q")
+        elem = lambda x: z_int(lv["elem"](x, st))
+        in_prefix = lambda y: z3.Exists([q], z3.And(q >= 0, q < k, elem(q) == y))
+        return [
+            A("current alternative", z3.And(i >= 0, i < alts.n, alt(i) == c, z3.Not(NOBASES(c)))),
+            A("earlier: every base of an earlier alternative maps to it", forall([j, t], z3.Implies(z3.And(j >= 0, j < i, BASE(alt(j), t)), z3.And(st.dict_dom(tbl)[t], st.dict_vals(tbl)[t] == alt(j))))),
+            A("c's bases are disjoint from the earlier entries", forall([j, t], z3.Implies(z3.And(j >= 0, j < i, BASE(alt(j), t)), z3.Not(BASE(c, t))))),
+            A("prefix of c's bases entered", forall([q], z3.Implies(z3.And(q >= 0, q < k), z3.And(st.dict_dom(tbl)[elem(q)], st.dict_vals(tbl)[elem(q)] == c)))),
+            A("every table entry is an earlier alternative with that base, or one of c's entered bases", forall([t], z3.Implies(st.dict_dom(tbl)[t], z3.Or(
+                z3.And(in_prefix(t), st.dict_vals(tbl)[t] == c, BASE(c, t)), z3.Exists([j], z3.And(j >= 0, j < i, alt(j) == st.dict_vals(tbl)[t], BASE(alt(j), t))))))),
+            A("the abstract alternative is the earlier one without bases", z3.And(
+                z3.Implies(ab != 0, z3.Exists([j], z3.And(j >= 0, j < i, alt(j) == ab, NOBASES(ab), ISBASEATTR(ab), z3.Not(FINAL(st.sel("attr", ab)))))),
+                forall([j], z3.Implies(z3.And(j >= 0, j < i, NOBASES(alt(j))), alt(j) == ab)))),
+        ]
+
+    def post(self, old, st, a, res):
+        me = a["_me"]
+        alts = a["attr_constrs"]
+        n = alts.n
+        tbl = st.sel("_based_constrs", me)
+        ab = st.sel("_abstr_constr", me)
+        j, t = z3.Ints("ap!j ap!t")
+        stored = z3.And(st.seq_len("attr_constrs", me) == n, forall([j], z3.Implies(z3.And(j >= 0, j < n), st.seq_el("attr_constrs", me, j) == alts.arr[j])))
+        return [C("the-alternatives-are-stored", stored)] + [Clause("inv: " + c.name, c.z, "property") for c in self._facts(st, a, n, tbl, ab)] + [
+            C("inv: no table key is a subclass of the abstract alternative's class", forall([t], z3.Implies(z3.And(ab != 0, st.dict_dom(tbl)[t]), z3.Not(SUBCLS(t, st.sel("attr", ab))))))]
+
+    def post_exc(self, old, st, a, exc):
+        if exc == "PyRDLError":
+            return []  # rejecting a union it cannot dispatch soundly is always allowed
+        return None
+
+    def native_search(self, inst, seed):
+        r = N09.explore("quick", seed)
+        return r["failures"][0] if r["failures"] else None
+
+
 def _search(self, inst, seed):
     r = N09.explore("quick", seed)
     return r["failures"][0] if r["failures"] else None
@@ -470,6 +637,9 @@ def make_specs(tier):
         add(Infer(cls))
     for cls in ("EqAttrConstraint", "BaseAttr", "ParamAttrConstraint"):
         add(GetBases(cls))
+    ai = AnyOfInit()
+    ai.instances = [{}]
+    specs.append(ai)
     return specs
 
 
@@ -478,9 +648,9 @@ ASSUMPTIONS = [
     "nested <constraint>.verify / .infer calls are replaced by the callee's contract (uninterpreted acceptance relation ACC and context transformers): modular reasoning; "
     "the relation is the same symbol in every unit, so each class is proved to realise its defining clause given that its sub-constraints realise theirs",
     "attribute `==` is equality of immutable values (C08); truthiness of an attribute object is NOT assumed to be `is not None` (uninterpreted is_falsy)",
-    "AnyOf.verify is proved under the object invariant of AnyOf (dispatch table = bases of the alternatives, at most one base-less alternative, no table key a subclass of it) and "
-    "bases-soundness of its alternatives; AnyOf.__init__ establishing the invariant, AttrSetConstraint.get_bases, AnyOf.get / relax_constraint (union simplification), "
-    "irdl_to_attr_constraint vs isa, and ParamAttrConstraint/BaseAttr/AllOf.infer are covered by the bounded stand-in only",
+    "AnyOf.verify is proved under the object invariant of AnyOf, which is literally the discharged postcondition of AnyOf.__init__ (frozen dataclass), and under bases-soundness of its "
+    "alternatives (proved for EqAttrConstraint / BaseAttr / ParamAttrConstraint, assumed for other classes); iteration over Python sets / dict key views is a TRUSTED enumeration model; "
+    "AttrSetConstraint.get_bases, AnyOf.get / relax_constraint (union simplification), irdl_to_attr_constraint vs isa, and ParamAttrConstraint/BaseAttr/AllOf.infer are covered by the bounded stand-in only",
     "a runtime-final class has no proper subclasses (is_runtime_final = @final marker): assumed",
     "IntConstraint / RangeConstraint families are not covered",
 ]
